@@ -268,46 +268,34 @@ example : key codeCap codePrefix wx wc wt₁ ≠ key codeCap codePrefix wx wc wt
 
 /-! ## rate floor and keep draw -/
 
-theorem decision_eq (r : Int) (intn : Nat → Nat) :
-    decision r intn = if max 1 (toUint r) ≥ two63 then .panic
-      else .ok (max 1 (toUint r)) (intn (max 1 (toUint r)) == 0) := by
-  have hm : (if toUint r < 1 then 1 else toUint r) = max 1 (toUint r) := by split <;> omega
+theorem decision_rate (r : Int) (intn : Nat → Nat) : (decision r intn).rate = max 1 r.toNat := by
   unfold decision
-  simp only [hm]
+  simp only
+  split <;> omega
 
-theorem decision_ok {r : Int} {intn : Nat → Nat} {rate : Nat} {keep : Bool}
-    (h : decision r intn = .ok rate keep) :
-    rate = max 1 (toUint r) ∧ rate < two63 ∧ keep = (intn rate == 0) := by
-  rw [decision_eq] at h
-  by_cases hp : max 1 (toUint r) ≥ two63
-  · simp [hp] at h
-  · simp only [hp, if_false] at h
-    injection h with h1 h2
-    subst h1
-    exact ⟨rfl, by omega, h2.symm⟩
+/-- **rate_floor** — the rate `GetSampleRate` returns is at least 1, whatever dynsampler answered
+(0 and negative answers included: the answer is clamped as an `int` before the conversion). -/
+theorem rate_floor (r : Int) (intn : Nat → Nat) : 1 ≤ (decision r intn).rate := by
+  rw [decision_rate]; omega
 
-/-- **rate_floor** — whenever `GetSampleRate` returns, the rate is at least 1, whatever dynsampler
-answered (0 included; a negative answer makes `rand.Intn` panic, nothing is returned). -/
-theorem rate_floor (r : Int) (intn : Nat → Nat) (rate : Nat) (keep : Bool)
-    (h : decision r intn = .ok rate keep) : 1 ≤ rate := by
-  have := (decision_ok h).1
+/-- An answer of at least 1 is returned unchanged. -/
+theorem rate_floor_exact (r : Int) (intn : Nat → Nat) (h : 1 ≤ r) :
+    ((decision r intn).rate : Int) = r := by
+  rw [decision_rate]; omega
+
+/-- **never_panics** — `rand.Intn` is always called with a valid argument: `int(rate)` is the
+clamped answer, positive and (for every 64-bit `int` answer) below 2^63.  The model has no panic
+outcome any more; before commit 6dd5492 a negative answer made `rand.Intn` panic. -/
+theorem never_panics (r : Int) (intn : Nat → Nat) (h : r < (two63 : Int)) :
+    0 < (decision r intn).rate ∧ (decision r intn).rate < two63 := by
+  rw [decision_rate]
+  simp only [two63] at *
   omega
 
-/-- For every answer dynsampler can sensibly give (`0 ≤ r`), the rate is `max 1 r` and nothing
-panics. -/
-theorem rate_floor_exact (r : Int) (intn : Nat → Nat) (h0 : 0 ≤ r) (h1 : r < (two63 : Int)) :
-    decision r intn = .ok (max 1 r.toNat) (intn (max 1 r.toNat) == 0) := by
-  have hu : toUint r = r.toNat := by
-    unfold toUint
-    rw [Int.emod_eq_of_lt h0 (by simp only [two63, two64] at *; omega)]
-  rw [decision_eq, hu]
-  have : ¬ max 1 r.toNat ≥ two63 := by simp only [two63] at *; omega
-  simp only [this, if_false]
-
 /-- **keep_iff_draw_zero** — the trace is kept exactly when `rand.Intn(rate)` drew 0. -/
-theorem keep_iff_draw_zero (r : Int) (intn : Nat → Nat) (rate : Nat) (keep : Bool)
-    (h : decision r intn = .ok rate keep) : keep = true ↔ intn rate = 0 := by
-  rw [(decision_ok h).2.2]; simp
+theorem keep_iff_draw_zero (r : Int) (intn : Nat → Nat) :
+    (decision r intn).keep = true ↔ intn (decision r intn).rate = 0 := by
+  simp [decision]
 
 theorem countP_eq_zero_range (n : Nat) : (List.range n).countP (fun d => d == 0) = if n = 0 then 0 else 1 := by
   induction n with
@@ -320,28 +308,21 @@ theorem countP_eq_zero_range (n : Nat) : (List.range n).countP (fun d => d == 0)
 
 /-- **keeps with probability 1/rate** — of the `rate` equally likely values `rand.Intn(rate)` can
 return, exactly one keeps the trace. -/
-theorem keep_one_in_rate (r : Int) (rate : Nat) (keep : Bool)
-    (h : decision r (fun _ => 0) = .ok rate keep) :
-    (List.range rate).countP (fun d => decision r (fun _ => d) == .ok rate true) = 1 := by
-  obtain ⟨h1, h2, _⟩ := decision_ok h
-  have key : ∀ d, (decision r (fun _ => d) == .ok rate true) = (d == 0) := by
-    intro d
-    rw [decision_eq, ← h1]
-    have : ¬ rate ≥ two63 := by omega
-    simp only [this, if_false]
-    cases hd : (d == 0) <;> simp
-  simp only [key]
+theorem keep_one_in_rate (r : Int) :
+    (List.range (decision r (fun _ => 0)).rate).countP (fun d => (decision r (fun _ => d)).keep) = 1 := by
+  have h1 := rate_floor r (fun _ => 0)
+  have hk : ∀ d, (decision r (fun _ => d)).keep = (d == 0) := by intro d; simp [decision]
+  simp only [hk]
   rw [countP_eq_zero_range]
   split <;> omega
 
 /-- `GetSampleRate` as a whole: the key handed to dynsampler and returned is the trace key, and
 the floor / keep claims hold for whatever dynsampler (`dyn`) and `rand.Intn` (`intn`) do. -/
 theorem getSampleRate_spec (cap : Nat) (pre : String) (x : Ext) (c : Cfg) (t : Trace)
-    (dyn : String → Nat → Int) (intn : Nat → Nat) (rate : Nat) (keep : Bool)
-    (h : (getSampleRate cap pre x c t dyn intn).2 = .ok rate keep) :
-    (getSampleRate cap pre x c t dyn intn).1 = key cap pre x c t ∧ 1 ≤ rate ∧
-      (keep = true ↔ intn rate = 0) :=
-  ⟨rfl, rate_floor _ _ _ _ h, keep_iff_draw_zero _ _ _ _ h⟩
+    (dyn : String → Nat → Int) (intn : Nat → Nat) :
+    let res := getSampleRate cap pre x c t dyn intn
+    res.1 = key cap pre x c t ∧ 1 ≤ res.2.rate ∧ (res.2.keep = true ↔ intn res.2.rate = 0) :=
+  ⟨rfl, rate_floor _ _, keep_iff_draw_zero _ _⟩
 
 /-! ## non-vacuity: concrete traces evaluated by the kernel -/
 
@@ -363,8 +344,8 @@ example : build 3 codePrefix ex ⟨["status"], false⟩
 example : Admissible codeCap codePrefix ex ec ⟨[sA, sB, sR], some sR⟩ :=
   ⟨by decide, by decide, by decide, by decide, by decide⟩
 example : key codeCap codePrefix ex ec ⟨[sA, sR], some sR⟩ ≠ key codeCap codePrefix ex ec ⟨[sA, sB, sR], some sR⟩ := by decide
-example : decision 0 (fun _ => 0) = .ok 1 true := by decide
-example : decision 10 (fun _ => 3) = .ok 10 false := by decide
-example : decision (-1) (fun _ => 0) = .panic := by decide
+example : decision 0 (fun _ => 0) = ⟨1, true⟩ := by decide
+example : decision 10 (fun _ => 3) = ⟨10, false⟩ := by decide
+example : decision (-1) (fun _ => 0) = ⟨1, true⟩ := by decide
 
 end Refinery.Props.C11
